@@ -131,9 +131,11 @@ def tableCand (start endPos : Nat) (ce : Chunk × Entry Dy) : Cand :=
 
 /-- candidates of `TableTranslator::Query` before `DistinctTranslation`: user dictionary, encoder, sentence and
 charset filter off.  `exactKey` = the prism's `GetValue(code)`, `expansion` = `ExpandSearch(code)` unlimited.
-`sortWords` = does the translator `Sort()` the iterator `LookupWords` filled before the first `Peek`?  (the
-unrepaired code does not: `false`; the repair of finding `C07:table:exact-order` does: `true`) -/
-def tableTranslation (sortWords : Bool) (t : Table) (syllabary : List Bytes) (delims : Bytes) (input : Bytes) (start : Nat)
+`sortWords` = does the translator `Sort()` the iterator `LookupWords` filled before the first `Peek`?
+The code does (`true`) since the repair of finding `C07:table:exact-order` (table_translator.cc: `iter.Sort()`
+after the exact lookup, `more.Sort()` after `Skip`); `false` is the code before that repair, kept only for
+`old_table_translation_counterexample`. -/
+def tableTranslationWith (sortWords : Bool) (t : Table) (syllabary : List Bytes) (delims : Bytes) (input : Bytes) (start : Nat)
     (completion : Bool) (exactKey : Option PrismKey) (expansion : List PrismKey) : List Cand :=
   let code := trimRightDelims delims input
   let endPos := start + input.length
@@ -144,5 +146,11 @@ def tableTranslation (sortWords : Bool) (t : Table) (syllabary : List Bytes) (de
   else
     let it : Iter := { done := [], rest := lookupWords t syllabary code.length exactKey.toList }
     (drainAll (if sortWords then it.sort else it)).map (tableCand start endPos)
+
+/-- `TableTranslator::Query` as it is: the iterator is sorted before the first entry is shown -/
+def tableTranslation := tableTranslationWith true
+
+/-- the translator before the repair of `C07:table:exact-order` (first entry = head of the first chunk) -/
+def tableTranslationOld := tableTranslationWith false
 
 end RimeModel.C07
